@@ -59,9 +59,9 @@ func orderedSubsets(n, k int) [][]int {
 }
 
 func zooInserts(table string, ncols int, aliasPos int) []string {
-	vals := []string{"1", "2", "'x'", "'X'", "'x '", "NULL", "2.5", "x'00ff'", "-7", "'y'", "10", "'10'"}
+	vals := []string{"1", "2", "'x'", "'X'", "'x '", "NULL", "2.5", "x'00ff'", "-7", "'y'", "10", "'10'", "'x'||char(9)", "'x'||char(10)", "'X  '"}
 	var stmts []string
-	for i := 0; i < 14; i++ {
+	for i := 0; i < 17; i++ {
 		row := make([]string, ncols)
 		for c := 0; c < ncols; c++ {
 			if c == aliasPos {
@@ -215,6 +215,10 @@ func zooCases(thorough bool) []zooCase {
 		for i := 0; i < 14; i++ {
 			vals := []string{fmt.Sprint(i % 4), fmt.Sprintf("'%s%d'", []string{"k", "K", "k "}[i%3], i), fmt.Sprint(20 - i), fmt.Sprintf("'d%d'", i%5)}
 			stmts = append(stmts, "INSERT OR IGNORE INTO z VALUES ("+strings.Join(vals, ", ")+")")
+		}
+		// keys that differ from K1 only by what follows: RTRIM ignores trailing blanks, and nothing else
+		for i, tail := range []string{"' '", "char(9)", "char(10)", "char(12)", "char(13)||char(10)", "'  '||char(9)", "char(0)"} {
+			stmts = append(stmts, fmt.Sprintf("INSERT OR IGNORE INTO z VALUES (1, 'K1'||%s, %d, 'tail%d')", tail, 40+i, i))
 		}
 		out = append(out, zooCase{name: fmt.Sprintf("without-rowid repeated/shared primary key #%d", pi), stmts: stmts})
 	}
